@@ -33,7 +33,7 @@ class Jail:
     """A scratch directory <root>/jail (the cwd of the commands) with out/, secret/, askme/ and
     <root>/bin stubs, <root>/ctl for the log."""
 
-    def __init__(self, stub_names):
+    def __init__(self, stub_names, real_tools=()):
         root = os.path.realpath(tempfile.mkdtemp(prefix="dippy-verif-"))
         self.root = root
         self.cwd = os.path.join(root, "jail")
@@ -48,6 +48,13 @@ class Jail:
             os.chmod(p, 0o755)
         for sh in ("bash", "sh"):
             os.symlink(BASH, os.path.join(self.bin, sh))
+        for tool in real_tools:
+            real = shutil.which(tool)
+            dst = os.path.join(self.bin, tool)
+            if real:
+                if os.path.lexists(dst):
+                    os.unlink(dst)
+                os.symlink(real, dst)
         self.reset()
 
     def reset(self):
@@ -59,7 +66,7 @@ class Jail:
                     shutil.rmtree(p, ignore_errors=True)
             else:
                 os.unlink(p)
-        for d in ("out", "secret", "askme", "sub"):
+        for d in ("out", "secret", "askme", "sub", "sub/out"):
             os.makedirs(os.path.join(self.cwd, d), exist_ok=True)
         with open(os.path.join(self.cwd, "f"), "w") as f:
             f.write("data\n")
